@@ -598,4 +598,68 @@ theorem RM_routes_partial (v : Variant) (scripts : List (List Op)) (h : ∀ ops 
 
 example : clean [.custom "x", .writeEntry, .logCustom 1 2] = true ∧ clean [.writeEntry, .custom "x"] = false := by decide
 
+/-! ## 7. Sessions at bgp-in / bmp-in: message-locality -/
+
+theorem runMsgs_fold (v : Variant) (h : v.perMsg = true) (calls : List (Bmp × List Op))
+    (s : Stream) (acc : List (List Out)) :
+    ((calls.foldl (fun (acc : Stream × List (List Out)) c =>
+        let s := run v c.1 c.2 (if v.perMsg then Stream.new else acc.1)
+        ({ s with msgs := [] }, acc.2 ++ [s.msgs])) (s, acc)).2) =
+    acc ++ calls.map fun c => runFresh v c.1 c.2 := by
+  induction calls generalizing s acc with
+  | nil => simp
+  | cons c r ih =>
+    simp only [List.foldl_cons]
+    rw [ih]
+    simp [h, runFresh]
+
+/-- with one stream per message the loop over a session is the per-message call, message by message -/
+theorem runMsgs_perMsg (v : Variant) (h : v.perMsg = true) (calls : List (Bmp × List Op)) :
+    runMsgs v calls = calls.map fun c => runFresh v c.1 c.2 := by
+  unfold runMsgs
+  rw [runMsgs_fold v h]; rfl
+
+/-- **message-locality**: for every session and every script the outputs of message `k` are the
+    outputs of one filter call on message `k` with a new stream -/
+theorem RM_session_local (v : Variant) (h : v.perMsg = true) (tag : Nat) (a b : List Op) (msgs : List Bmp) :
+    runSession v tag a b msgs = msgs.map fun m => runFresh v m (branch tag a b m) := by
+  unfold runSession
+  rw [runMsgs_perMsg v h, List.map_map]; rfl
+
+/-- … hence a function of message `k` alone: whatever else the two sessions contain -/
+theorem RM_session_message_alone (v : Variant) (h : v.perMsg = true) (tag : Nat) (a b : List Op)
+    (m1 m2 : List Bmp) (k : Nat) (hk : m1[k]? = m2[k]?) :
+    (runSession v tag a b m1)[k]? = (runSession v tag a b m2)[k]? := by
+  rw [RM_session_local v h, RM_session_local v h, List.getElem?_map, List.getElem?_map, hk]
+
+example : (runSession .asWritten 64999 [.custom "x"] [.writeEntry]
+      [bgpMsg { Upd.empty with aspath := some [⟨.seq, [64999]⟩] }, bgpMsg Upd.empty])
+    = [[], [.entry Entry.new]] := by decide
+
+/-- per-message exactness over a whole session (repaired `take_entry`) -/
+theorem RM_session_exact (v : Variant) (h1 : v.perMsg = true) (h2 : v.freshTs = true)
+    (tag : Nat) (a b : List Op) (msgs : List Bmp) :
+    runSession v tag a b msgs = msgs.map fun m => specRun m (branch tag a b m) Entry.new := by
+  rw [RM_session_local v h1]
+  congr 1; funext m
+  exact RM_entries_repaired v h2 m _
+
+/-- as written (any `take_entry`): exact modulo the timestamp -/
+theorem RM_session_partial (v : Variant) (h1 : v.perMsg = true) (tag : Nat) (a b : List Op) (msgs : List Bmp) :
+    (runSession v tag a b msgs).map (·.map Out.noTs) =
+    msgs.map fun m => (specRun m (branch tag a b m) Entry.new).map Out.noTs := by
+  rw [RM_session_local v h1, List.map_map]
+  congr 1; funext m
+  exact RM_entries_partial v m _
+
+/-- a stream hoisted out of the per-message scope breaks locality: the text the script composes
+    for a tagged message (and does not write) is written for the next, untagged one -/
+theorem RM_session_hoisted_counterexample :
+    runSession { Variant.repaired with perMsg := false } 64999 [.custom "x"] [.writeEntry]
+      [bgpMsg { Upd.empty with aspath := some [⟨.seq, [64999]⟩] }, bgpMsg Upd.empty]
+    = [[], [.entry { Entry.new with custom := some "x" }]] ∧
+    runSession Variant.repaired 64999 [.custom "x"] [.writeEntry]
+      [bgpMsg { Upd.empty with aspath := some [⟨.seq, [64999]⟩] }, bgpMsg Upd.empty]
+    = [[], [.entry Entry.new]] := by decide
+
 end Rotonda.RotoMethods
